@@ -1,12 +1,16 @@
-(* Property C09 - only statements, each closed by [exact]. *)
+(* Property C09 - only statements, each closed by [exact].
+   UV.C09.Model describes the code as it is now (after the fix: commits for len98 / overflow / c64);
+   UV.C09.Legacy describes it as it was before them and is used only in the ..._legacy_refuted theorems. *)
 From Coq Require Import NArith ZArith List Bool.
 Import ListNotations.
 Require Import UV.Gen.Consts UV.C09.Model UV.C09.Proofs.
+Require UV.C09.Legacy UV.C09.LegacyProofs.
 Local Open Scope N_scope.
 
-(* Framing: for EVERY spec list (any formats, sizes, register/stack/struct addressing) and every input,
-   if save_to_argbuf accepts the data (payload = Some p), read_task_args - which recomputes each length from
-   the stream - consumes exactly p and the writer's padding to 8 bytes, and hands back the bytes behind it.
+(* ---------------------------------------------------------------- framing and resync *)
+(* For EVERY spec list (any formats, sizes, register/stack/struct addressing) and every input, if save_to_argbuf
+   accepts the data (payload = Some p), read_task_args - which recomputes each length from the stream - consumes
+   exactly p and the writer's padding to 8 bytes, and hands back the bytes behind it.
    (wf_spec: a string spec has a non-zero size, as parse_argspec always produces.) *)
 Theorem C09_framing : forall fill inp is_ret specs bg p rest,
   Forall wf_spec specs ->
@@ -16,8 +20,8 @@ Theorem C09_framing : forall fill inp is_ret specs bg p rest,
 Proof. exact framing. Qed.
 Print Assumptions C09_framing.
 
-(* Resync: whatever the payload size, the record is decoded to itself and decoding continues exactly at
-   the record that follows (writer's ALIGN(size,8) = reader's 8 - len mod 8). *)
+(* Whatever the payload size, the record is decoded to itself and decoding continues exactly at the record
+   that follows (writer's ALIGN(size,8) = reader's 8 - len mod 8). *)
 Theorem C09_stream_resync : forall k specs_of bg fill inp t ty depth addr pl rest,
   t < 2 ^ 64 -> ty < 4 -> depth < 1024 -> addr < 2 ^ 48 ->
   Forall wf_spec (specs_of addr) ->
@@ -28,20 +32,38 @@ Theorem C09_stream_resync : forall k specs_of bg fill inp t ty depth addr pl res
 Proof. exact stream_resync. Qed.
 Print Assumptions C09_stream_resync.
 
-(* The string copy loop of save_to_argbuf, in closed form. *)
-Theorem C09_string_short_intact : forall s junk bound,
-  nz s -> lenN s < ARG_STR_MAX -> lenN s < bound ->
-  copy_loop (s ++ 0 :: junk) 0 bound [] 0 = (s ++ [0], lenN s).
-Proof. exact copy_loop_short. Qed.
-Print Assumptions C09_string_short_intact.
+(* ---------------------------------------------------------------- inside the per-frame buffer *)
+(* Without struct specs NO store of save_to_argbuf goes past the frame's 1024-byte argument buffer - for every
+   spec list and every input, accepted or refused. *)
+Theorem C09_within_argbuf : forall fill inp is_ret specs,
+  Forall no_struct specs -> m_hi (run fill inp is_ret specs) <= ARGBUF_SIZE.
+Proof. exact within_argbuf. Qed.
+Print Assumptions C09_within_argbuf.
 
-Theorem C09_string_long_truncated : forall s1 c junk bound,
-  nz s1 -> lenN s1 = ARG_STR_MAX -> ARG_STR_MAX < bound ->
-  copy_loop (s1 ++ c :: junk) 0 bound [] 0 = (takeN (ARG_STR_MAX - 3) s1 ++ [46; 46; 46; 0], ARG_STR_MAX).
-Proof. exact copy_loop_long. Qed.
-Print Assumptions C09_string_long_truncated.
+(* a struct given with registers is still copied without looking at the room (8 bytes per register, plus
+   spec->size bytes from the stack because reg_idx and stack_ofs share a union) *)
+Theorem C09_within_argbuf_struct_regs_refuted :
+  let specs := [ {| s_idx := 30; s_fmt := FStruct; s_size := 1016; s_type := TStack; s_u := 1%Z; s_regs := []; s_name := [] |};
+                 {| s_idx := 1; s_fmt := FStruct; s_size := 4; s_type := TReg; s_u := 2%Z; s_regs := [1%Z; 2%Z]; s_name := [] |} ] in
+  let st := run 0 (inp1 7 []) false specs in
+  result st = Some 1020 /\ m_hi st = ARGBUF_SIZE + 16.
+Proof. exact struct_regs_overflow_refuted. Qed.
+Print Assumptions C09_within_argbuf_struct_regs_refuted.
 
-(* Fetch: an integer-class spec (size 1/2/4/8) captures the low bytes of the word the SysV ABI assigns:
+(* before the fix: one byte past the buffer on the success path, unbounded with many scalars *)
+Theorem C09_within_argbuf_legacy_refuted :
+  (let specs := [ {| Legacy.s_idx := 30; Legacy.s_fmt := Legacy.FStruct; Legacy.s_size := 1016; Legacy.s_type := Legacy.TStack;
+                     Legacy.s_u := 1%Z; Legacy.s_regs := []; Legacy.s_name := [] |}; LegacyProofs.spec_str 1 ] in
+   let st := Legacy.run 0 (LegacyProofs.inp1 4096 [(4096, [97; 98])]) false specs in
+   Legacy.result st = Some 1020 /\ Legacy.m_hi st = ARGBUF_SIZE + 1) /\
+  (let st := Legacy.run 0 (LegacyProofs.inp1 0 []) false
+               (LegacyProofs.many_specs 100 ++ map (fun i => Legacy.Sp 1 Legacy.FHex 8 Legacy.TStack (N.of_nat i)) (seq 1 40)) in
+   Legacy.result st = None /\ Legacy.m_hi st = ARGBUF_SIZE + 100).
+Proof. exact (conj LegacyProofs.overflow_success_refuted LegacyProofs.overflow_scalars_refuted). Qed.
+Print Assumptions C09_within_argbuf_legacy_refuted.
+
+(* ---------------------------------------------------------------- fetch *)
+(* An integer-class spec (size 1/2/4/8) captures the low bytes of the word the SysV ABI assigns:
    argN -> rdi,rsi,rdx,rcx,r8,r9 (N <= 6) or stack word N-6 (7 <= N <= 100); %reg / %stack+k directly. *)
 Theorem C09_fetch : forall inp s val w,
   arg_word inp s = Some w -> lenN val = VAL_SIZE ->
@@ -58,52 +80,93 @@ Theorem C09_fetch_arg101_refuted :
 Proof. exact arg101_reads_xmm0_refuted. Qed.
 Print Assumptions C09_fetch_arg101_refuted.
 
-(* Stores stay inside the per-frame buffer?  Refuted, with the exact extent proved: *)
-Theorem C09_within_argbuf_success_refuted :
-  let specs := [ {| s_idx := 30; s_fmt := FStruct; s_size := 1016; s_type := TStack; s_u := 1%Z; s_regs := []; s_name := [] |};
-                 spec_str 1 ] in
-  let st := run 0 (inp1 4096 [(4096, [97; 98])]) false specs in
-  result st = Some 1020 /\ m_hi st = ARGBUF_SIZE + 1.
-Proof. exact overflow_success_refuted. Qed.
-Print Assumptions C09_within_argbuf_success_refuted.
+(* ---------------------------------------------------------------- values: from the registers to replay's text *)
+(* An integer or character argument at any position of any call (the loop not left, room for it): the bytes
+   appended are the low bytes of the word the ABI assigns and replay renders them as an accepted rendering of
+   exactly that value (signed/unsigned decimal, hex or octal; 'c'), stepping over exactly these bytes. *)
+Theorem C09_int_arg_roundtrip : forall syms fill inp st s w,
+  m_stop st = false -> is_arg s -> lenN (m_val st) = VAL_SIZE ->
+  arg_word inp s = Some w ->
+  m_total st + ALIGN (s_size s) 4 <= MAX_SIZE ->
+  (int_fmt (s_fmt s) /\ (s_size s = 1 \/ s_size s = 2 \/ s_size s = 4 \/ s_size s = 8) /\ ~ neg32_class s w) \/
+  (s_fmt s = FChar /\ (s_size s = 1 \/ s_size s = 2 \/ s_size s = 4 \/ s_size s = 8)) ->
+  exists chunk,
+    m_done (step fill inp false st s) = m_done st ++ chunk /\
+    lenN chunk = ALIGN (s_size s) 4 /\
+    m_total (step fill inp false st s) = m_total st + lenN chunk /\
+    forall later, In (fst (show_one syms s (chunk ++ later))) (accept s (AInt w)) /\
+                  snd (show_one syms s (chunk ++ later)) = lenN chunk.
+Proof. exact int_arg_roundtrip. Qed.
+Print Assumptions C09_int_arg_roundtrip.
 
-Theorem C09_within_argbuf_scalars_refuted :
-  let st := run 0 (inp1 0 []) false (many_specs 100 ++ map (fun i => Sp 1 FHex 8 TStack (N.of_nat i)) (seq 1 40)) in
-  result st = None /\ m_hi st = ARGBUF_SIZE + 100.
-Proof. exact overflow_scalars_refuted. Qed.
-Print Assumptions C09_within_argbuf_scalars_refuted.
+(* the guard ~neg32_class is exact: an argument without format ('long int' by the manual) whose value is
+   4294967295 is shown as "(-1)"  (listed defect auto-neg32) *)
+Theorem C09_auto_neg32_refuted :
+  let sp := Sp 1 FAuto 8 TIndex 0 in
+  let inp := {| regs := [0xffffffff; 0; 0; 0; 0; 0]; xmm := []; stk := []; rets := []; strs := []; wrds := [] |} in
+  show_args [] [sp] (payload (run 0 inp false [sp])) = [40; 45; 49; 41] /\
+  ok_args [(sp, AInt 0xffffffff)] (show_args [] [sp] (payload (run 0 inp false [sp]))) = false.
+Proof. exact auto_neg32_refuted. Qed.
+Print Assumptions C09_auto_neg32_refuted.
 
-(* without struct specs every store ends at most one byte behind the data accepted so far ... *)
-Theorem C09_store_extent : forall fill inp is_ret specs,
-  Forall no_struct specs -> m_hi (run fill inp is_ret specs) <= 4 + m_total (run fill inp is_ret specs) + 1.
-Proof. exact store_extent. Qed.
-Print Assumptions C09_store_extent.
+(* before the fix `argN/c64` made replay step over 4 of the 8 bytes *)
+Theorem C09_char64_legacy_refuted :
+  let specs := [Legacy.Sp 1 Legacy.FChar 8 Legacy.TIndex 0; Legacy.Sp 2 Legacy.FSint 4 Legacy.TIndex 0] in
+  let inp := {| Legacy.regs := [0x1122334455667741; 7; 0; 0; 0; 0]; Legacy.xmm := []; Legacy.stk := []; Legacy.rets := [];
+                Legacy.strs := []; Legacy.wrds := [] |} in
+  let st := Legacy.run 0 inp false specs in
+  Legacy.show_args [] specs (Legacy.payload st) = [40; 39; 65; 39; 44; 32] ++ Legacy.dec 0x11223344 ++ [41] /\
+  Legacy.ok_args [(Legacy.Sp 1 Legacy.FChar 8 Legacy.TIndex 0, Legacy.AInt 0x1122334455667741);
+                  (Legacy.Sp 2 Legacy.FSint 4 Legacy.TIndex 0, Legacy.AInt 7)]
+                 (Legacy.show_args [] specs (Legacy.payload st)) = false.
+Proof. exact LegacyProofs.c64_refuted. Qed.
+Print Assumptions C09_char64_legacy_refuted.
 
-(* ... hence at most one byte past the buffer whenever the data is accepted *)
-Theorem C09_store_bound_success : forall fill inp is_ret specs n,
-  Forall no_struct specs -> result (run fill inp is_ret specs) = Some n ->
-  m_hi (run fill inp is_ret specs) <= ARGBUF_SIZE + 1.
-Proof. exact store_bound_success. Qed.
-Print Assumptions C09_store_bound_success.
+(* A readable NUL-terminated string argument at any position of any call whose encoding has room: shown as
+   itself (up to ARG_STR_MAX characters) or as its first ARG_STR_MAX-3 characters and "..." (longer), quoted,
+   raw or with print_escaped_char's escapes; every length 0, 1, 2, ... and every byte value 1..255. *)
+Theorem C09_str_arg_roundtrip : forall syms fill inp st s p c,
+  m_stop st = false -> is_arg s -> s_fmt s = FStr -> s_size s = 8 -> lenN (m_val st) = VAL_SIZE ->
+  arg_word inp s = Some p -> p < 2 ^ 64 -> p <> 0 -> assoc p (strs inp) = Some c ->
+  nz c -> c <> [255; 255; 255; 255] ->
+  m_total st + need s (AStr c) <= MAX_SIZE ->
+  exists chunk,
+    m_done (step fill inp false st s) = m_done st ++ chunk /\
+    lenN chunk = need s (AStr c) /\
+    m_total (step fill inp false st s) = m_total st + lenN chunk /\
+    forall later, In (fst (show_one syms s (chunk ++ later))) (accept s (AStr c)) /\
+                  snd (show_one syms s (chunk ++ later)) = lenN chunk.
+Proof. exact str_arg_roundtrip. Qed.
+Print Assumptions C09_str_arg_roundtrip.
 
-(* a string of exactly ARG_STR_MAX characters is recorded as 95 characters + "..." although it fits *)
-Theorem C09_len98_refuted :
-  let st := run 0 (inp1 4096 [(4096, s98)]) false [spec_str 1] in
-  payload st = Some (le_bytes 2 98 ++ repeat 65 95 ++ [46; 46; 46]) /\
-  ok_args [(spec_str 1, AStr s98)] (show_args [] [spec_str 1] (payload st)) = false.
-Proof. exact len98_refuted. Qed.
-Print Assumptions C09_len98_refuted.
+(* the guard c <> "\xff\xff\xff\xff" is exact: that string is shown as NULL (the readers' marker for NULL) *)
+Theorem C09_ffff_string_refuted :
+  let st := run 0 (inp1 4096 [(4096, [255; 255; 255; 255])]) false [spec_str 1] in
+  show_args [] [spec_str 1] (payload st) = [40] ++ null_str ++ [41].
+Proof. exact ffff_refuted. Qed.
+Print Assumptions C09_ffff_string_refuted.
 
-(* `arg1/c64,arg2/i32`: get_argspec_string steps over 4 of the 8 bytes, arg2 is shown from arg1's upper half *)
-Theorem C09_char64_refuted :
-  let specs := [Sp 1 FChar 8 TIndex 0; Sp 2 FSint 4 TIndex 0] in
-  let inp := {| regs := [0x1122334455667741; 7; 0; 0; 0; 0]; xmm := []; stk := []; rets := []; strs := []; wrds := [] |} in
-  let st := run 0 inp false specs in
-  show_args [] specs (payload st) = [40; 39; 65; 39; 44; 32] ++ dec 0x11223344 ++ [41] /\
-  ok_args [(Sp 1 FChar 8 TIndex 0, AInt 0x1122334455667741); (Sp 2 FSint 4 TIndex 0, AInt 7)]
-          (show_args [] specs (payload st)) = false.
-Proof. exact c64_refuted. Qed.
-Print Assumptions C09_char64_refuted.
+(* the string copy loop in closed form *)
+Theorem C09_string_copy_intact : forall s junk bound,
+  nz s -> lenN s <= ARG_STR_MAX -> lenN s < bound ->
+  copy_loop (s ++ 0 :: junk) 0 bound [] 0 = (s ++ [0], lenN s).
+Proof. exact copy_loop_short. Qed.
+Print Assumptions C09_string_copy_intact.
+
+Theorem C09_string_copy_truncated : forall s1 c junk bound,
+  nz s1 -> lenN s1 = ARG_STR_MAX -> c <> 0 -> ARG_STR_MAX < bound ->
+  copy_loop (s1 ++ c :: junk) 0 bound [] 0 = (takeN (ARG_STR_MAX - 3) s1 ++ [46; 46; 46; 0], ARG_STR_MAX).
+Proof. exact copy_loop_long. Qed.
+Print Assumptions C09_string_copy_truncated.
+
+(* before the fix a string of exactly ARG_STR_MAX characters was recorded as 95 characters + "..." *)
+Theorem C09_len98_legacy_refuted :
+  let st := Legacy.run 0 (LegacyProofs.inp1 4096 [(4096, LegacyProofs.s98)]) false [LegacyProofs.spec_str 1] in
+  Legacy.payload st = Some (Legacy.le_bytes 2 98 ++ repeat 65 95 ++ [46; 46; 46]) /\
+  Legacy.ok_args [(LegacyProofs.spec_str 1, Legacy.AStr LegacyProofs.s98)]
+                 (Legacy.show_args [] [LegacyProofs.spec_str 1] (Legacy.payload st)) = false.
+Proof. exact LegacyProofs.len98_refuted. Qed.
+Print Assumptions C09_len98_legacy_refuted.
 
 (* a stack struct of 18 bytes loses its last two bytes (mcount_memcpy4 copies len/4 words) *)
 Theorem C09_struct_tail_refuted :
@@ -113,12 +176,3 @@ Theorem C09_struct_tail_refuted :
   Some [1; 2; 3; 4; 5; 6; 7; 8; 9; 10; 11; 12; 13; 14; 15; 16; 0xA5; 0xA5; 0xA5; 0xA5].
 Proof. exact struct18_tail_lost_refuted. Qed.
 Print Assumptions C09_struct_tail_refuted.
-
-(* an argument without format ('long int' by the manual) whose value is 4294967295 is shown as "(-1)" *)
-Theorem C09_auto_neg32_refuted :
-  let sp := Sp 1 FAuto 8 TIndex 0 in
-  let inp := {| regs := [0xffffffff; 0; 0; 0; 0; 0]; xmm := []; stk := []; rets := []; strs := []; wrds := [] |} in
-  show_args [] [sp] (payload (run 0 inp false [sp])) = [40; 45; 49; 41] /\
-  ok_args [(sp, AInt 0xffffffff)] (show_args [] [sp] (payload (run 0 inp false [sp]))) = false.
-Proof. exact auto_neg32_refuted. Qed.
-Print Assumptions C09_auto_neg32_refuted.
